@@ -176,6 +176,17 @@ impl Grapheme {
     }
 }
 
+#[cfg(grex_verif)]
+impl Grapheme {
+    pub(crate) fn verif_flags(&self) -> (bool, bool, bool) {
+        (
+            self.is_capturing_group_enabled,
+            self.is_output_colorized,
+            self.is_verbose_mode_enabled,
+        )
+    }
+}
+
 impl Display for Grapheme {
     fn fmt(&self, f: &mut Formatter<'_>) -> Result {
         let is_single_char = self.char_count(false) == 1
